@@ -6,8 +6,23 @@ from . import runlevel
 PID = "C05"
 
 
+def single_sample_specs(ctx):
+    """Noisy runs with noise_final_samples = 1 (the estimate is supplemented by the earlier observation at the returned x) and 0."""
+    from .. import gen
+    rng = ctx.sub_rng("c05nfs1")
+    specs = []
+    for i in range(12 if ctx.quick else 80):
+        sp = gen.make_spec(rng, D=rng.choice([1, 2, 2, 3]), mode=rng.choice(["auto", "decl", "he"]), geom=rng.choice(["box", "tight", "logbox"]), cons=None, opt_loc="inside",
+                           target=rng.choice(["quad", "abs"]))
+        sp["options"] = {"n_search": 32, "max_fun_evals": rng.choice([80, 110, 150]), "noise_final_samples": 1 if i % 4 else 0}
+        specs.append(sp)
+    return specs
+
+
 def run(ctx):
     rep = Report()
+    if ctx.pid == "C05":
+        runlevel.with_extra(ctx, "c05nfs1", lambda: single_sample_specs(ctx))
     stats, samples = runlevel.noisy_replay(ctx, rep, ctx.pid)
     rep.coverage = {
         "evaluations": stats["iterations"] + stats["final_selects"], "distinct_nontrivial": stats["moves"] + stats["reevals"] + stats["final_selects"],
